@@ -37,6 +37,9 @@ def cdiv (x y : Int) : Int :=
   let r := Int.tmod x y
   if r != 0 then (if (x < 0) == (y < 0) then d + 1 else d) else d
 
+/-- `Broadcast` evaluation after fix a4a397a: a size of 1 broadcasts to the other size (also to 0). -/
+def bcastI (x y : Int) : Int := if x = 1 then y else if y = 1 then x else Max.max x y
+
 /-- `SymExpr::eval`: `none` = missing symbol or division by zero. -/
 def Sym.eval (σ : Env) : Sym → Option Int
   | .val n => some n
@@ -49,7 +52,7 @@ def Sym.eval (σ : Env) : Sym → Option Int
   | .divCeil a b => do let x ← a.eval σ; let y ← b.eval σ; if y = 0 then none else pure (cdiv x y)
   | .max a b => do let x ← a.eval σ; let y ← b.eval σ; pure (Max.max x y)
   | .min a b => do let x ← a.eval σ; let y ← b.eval σ; pure (Min.min x y)
-  | .bcast a b => do let x ← a.eval σ; let y ← b.eval σ; pure (Max.max x y)
+  | .bcast a b => do let x ← a.eval σ; let y ← b.eval σ; pure (bcastI x y)
 
 /-- `impl PartialEq for SymExpr`: variables by name, commutative operators modulo swapping. -/
 def Sym.beq : Sym → Sym → Bool
